@@ -154,7 +154,10 @@ inline void id_dead(int id) {
 struct TC12 {
   int32_t v;
   int32_t pad[2];
-  TC12() = default;
+  TC12() : v(0) {  // still trivially copyable; value-initialised elements must satisfy ok() too
+    pad[0] = 0 ^ 0x5a5a;
+    pad[1] = ~0;
+  }
   TC12(int x) : v(x) { pad[0] = x ^ 0x5a5a; pad[1] = ~x; }
   bool ok() const { return pad[0] == (v ^ 0x5a5a) && pad[1] == ~v; }
 };
